@@ -194,6 +194,10 @@ def run(tier, rng, C):
                 continue
             if parts['D'] != parts['P'] or parts['C'] != parts['DC'] or parts['A'] != parts['DA']:
                 fail(c, 'py:as_dict-differs', 'NodeInfo.as_dict() differs from the attribute views', o)
+            keys = [unhx(t[1:]) for t in parts.get('KEYS', '').split(' ')[1:]]
+            missing = [k for k in ('__reclass__', 'applications', 'classes', 'environment', 'exports', 'parameters') if k not in keys]
+            if missing:
+                fail(c, 'py:as_dict-differs', 'NodeInfo.as_dict() lacks %s, which the attribute views have' % missing, o)
             meta = parts['META'].split(' ')[1:]
             dmeta = parts['DMETA'].split(' ')[1:]
             if meta != dmeta[:4] or dmeta[4] != meta[3]:
